@@ -5,8 +5,10 @@ props=[json.loads(l) for l in open('/verif/properties.jsonl')]
 NOTE="Trusted: go/ssa's translation (x/tools v0.29.0), the gosym interpreter and its intrinsics (checked on every run by replaying witnesses of explored paths natively and comparing observations), z3 4.8.12 (z3 5.1 / cvc5 for retries), the harness oracle, the stubs listed in the evidence file, and the bounds recorded there. Nothing is claimed outside the bounds."
 TECH="symbolic execution of go/ssa + SMT (z3), native replay of witnesses and counterexamples"
 claimed={
+ "C12": ("Bounded symbolic model checking of link numbering: symbolic tree shapes over link-bearing and wrapper elements (harness-built html.Node graphs) at symbolic widths, and whole posts/profiles built by the real constructors from JSON with attachments; the numbers parsed by the terminal model must be exactly 1..N and SelectLink(k), for every 64-bit k, must open the target labelled k or nothing.", "4/C12"),
  "C13": ("Bounded symbolic model checking of ansi.Wrap/DumbWrap/Pad/Indent/Snip/SetLength on styled text built with the real ansi.Apply from symbolic characters, judged by an independent terminal model (cells with active SGR parameters): width, content and order preservation, kept line breaks, word-breaking rule, prefix+ellipsis shape.", "4/C13"),
  "C14": ("Bounded symbolic model checking of the style layer: compositions and concatenations of all style functions over symbolic characters, followed by a layout operation; the terminal model must report for every character exactly the parameter multiset computed from the expression, and an empty active set at every line end.", "4/C14"),
+ "C15": ("Bounded symbolic model checking of rendered width for HTML trees, plain text and gemtext with symbolic text and width, plus an inductive cache lemma for all three Markup types with unconstrained 64-bit widths (Render equals the cache-free rendering and re-establishes the cache invariant from any state).", "4/C15"),
  "C16": ("Bounded symbolic model checking of the frame geometry (ansi.CenterVertically, ReplaceLastLine): every byte of the three strings and the height are solver variables; frame height and centring are decided by SMT for all strings within the bound.", "4/C16"),
  "C17": ("Bounded symbolic model checking of the typed accessors: the JSON kind, every finite double, every string of a few Unicode scalars and the parsers' verdicts are solver variables; classification, sanitisation and exact numeric value are asserted against a reference written from the statement.", "4/C17"),
  "C18": ("Bounded symbolic model checking of history.History[int] and feed.Feed against list/cursor reference models: operation sequences from the constructors and one inductive step from an arbitrary well-formed state.", "4/C18"),
